@@ -19,6 +19,7 @@ import (
 	mpmock "github.com/tendermint/tendermint/mempool/mock"
 	"github.com/tendermint/tendermint/p2p"
 	tmcons "github.com/tendermint/tendermint/proto/tendermint/consensus"
+	tmbits "github.com/tendermint/tendermint/proto/tendermint/libs/bits"
 	tmproto "github.com/tendermint/tendermint/proto/tendermint/types"
 	sm "github.com/tendermint/tendermint/state"
 	"github.com/tendermint/tendermint/types"
@@ -165,6 +166,7 @@ func (e *consEnv) clearPanics() {
 // settle waits until each per-peer routine of p has gone round its loop at least twice more (or has ended).
 func (e *consEnv) settle(p *hpeer) {
 	d0, v0, m0 := atomic.LoadInt64(&p.pollData), atomic.LoadInt64(&p.pollVotes), atomic.LoadInt64(&p.pollMaj23)
+	cal.reset()
 	deadline := time.Now().Add(receiveWait)
 	for {
 		if atomic.LoadInt32(e.dead[p.id]) > 0 || !p.BaseService.IsRunning() {
@@ -174,8 +176,8 @@ func (e *consEnv) settle(p *hpeer) {
 			return
 		}
 		if time.Now().After(deadline) {
-			e.t.Fatalf("VERIF-INFRA: gossip routines of the peer did not loop within %v (polls data=%d votes=%d maj23=%d)\n%s", receiveWait,
-				atomic.LoadInt64(&p.pollData)-d0, atomic.LoadInt64(&p.pollVotes)-v0, atomic.LoadInt64(&p.pollMaj23)-m0, allStacks())
+			stallVerdict(e.t, fmt.Sprintf("the per-peer routines of the consensus reactor (1 ms loops; loops completed since the last message: gossipData=%d gossipVotes=%d queryMaj23=%d, 2 each wanted)",
+				atomic.LoadInt64(&p.pollData)-d0, atomic.LoadInt64(&p.pollVotes)-v0, atomic.LoadInt64(&p.pollMaj23)-m0), 0, receiveWait)
 		}
 		time.Sleep(200 * time.Microsecond)
 	}
@@ -187,6 +189,7 @@ func (e *consEnv) awaitPeerRoutines(p *hpeer) {
 	if !ok {
 		return
 	}
+	cal.reset()
 	deadline := time.Now().Add(leakSettle)
 	for atomic.LoadInt32(cnt) < 3 {
 		if time.Now().After(deadline) {
@@ -206,7 +209,7 @@ func (e *consEnv) sendDummy() bool {
 	case <-e.cs.VerifDone():
 		return false
 	case <-tm.C:
-		e.t.Fatalf("VERIF-INFRA: consensus receiveRoutine did not take a tick within %v\n%s", receiveWait, allStacks())
+		stallVerdict(e.t, "the consensus receive routine (taking a timeout tick)", receiveRoutineGID(), receiveWait)
 		return false
 	}
 }
@@ -235,12 +238,27 @@ func receiveRoutineParked() bool {
 	return false
 }
 
+// receiveRoutineGID finds the goroutine running consensus.(*State).receiveRoutine (0 if none).
+func receiveRoutineGID() int64 {
+	for _, g := range strings.Split(allStacks(), "\n\n") {
+		if strings.Contains(g, "consensus.(*State).receiveRoutine(") {
+			if m := goidRe.FindStringSubmatch(g); m != nil {
+				var id int64
+				fmt.Sscan(m[1], &id)
+				return id
+			}
+		}
+	}
+	return 0
+}
+
 // barrier returns when the consensus state machine has handled everything queued so far: the receive routine is
 // parked in its select with both queues empty. (Queue lengths alone are not enough: an item may have been taken off
 // a queue and still be in the middle of handleMsg, about to enqueue the node's own vote.) Nothing but the receive
 // routine itself and this harness puts anything into those queues, so "parked" is stable until the harness acts.
 // False if the receive routine has died (CONSENSUS FAILURE).
 func (e *consEnv) barrier() bool {
+	cal.reset()
 	deadline := time.Now().Add(receiveWait)
 	for i := 0; ; i++ {
 		if !e.sendDummy() {
@@ -255,7 +273,7 @@ func (e *consEnv) barrier() bool {
 			return false
 		}
 		if time.Now().After(deadline) {
-			e.t.Fatalf("VERIF-INFRA: consensus receive routine not idle after %v\n%s", receiveWait, allStacks())
+			stallVerdict(e.t, "the consensus receive routine (draining its queues)", receiveRoutineGID(), receiveWait)
 		}
 		if i > 3 {
 			time.Sleep(50 * time.Microsecond)
@@ -269,6 +287,7 @@ func (e *consEnv) fireTimeout() bool {
 	if !ok {
 		return false
 	}
+	cal.reset()
 	tm := time.NewTimer(receiveWait)
 	defer tm.Stop()
 	select {
@@ -276,10 +295,59 @@ func (e *consEnv) fireTimeout() bool {
 	case <-e.cs.VerifDone():
 		return false
 	case <-tm.C:
-		e.t.Fatalf("VERIF-INFRA: timeout not taken")
+		stallVerdict(e.t, "the consensus receive routine (taking a timeout)", receiveRoutineGID(), receiveWait)
 	}
 	e.barrier()
 	return true
+}
+
+// probe: after hostile input the consensus reactor still serves a well-behaved new peer on all four channels, its
+// state can be read (RPC does that), the state machine still takes input and the per-peer routines of the newcomer
+// run; then the newcomer disconnects.
+func (e *consEnv) probe(hostile *consensus.PeerState) {
+	t := e.t
+	var p *hpeer
+	must(t, "consensus: InitPeer+AddPeer for a new connection (Switch.addPeer)", func() { p = newPeer(false); e.addPeer(p) })
+	lcr := int32(0)
+	if e.h == e.chain.Spec.InitialHeight {
+		lcr = -1
+	}
+	rs := e.cs.GetRoundState()
+	outsider := e.signedVote(0, tmproto.PrevoteType, rs.Round, types.BlockID{}, false)
+	fb := lib.ForgeBlockID("probe")
+	forged := fb.ToProto()
+	recv := func(what string, ch byte, b []byte) probe {
+		return probe{"Receive(" + what + ") from a well-behaved peer", func() { e.conR.Receive(ch, p, b) }}
+	}
+	runProbes(t, "consensus", []probe{
+		recv("NewRoundStep", consensus.StateChannel, wrapCons(&tmcons.NewRoundStep{Height: e.h, Round: rs.Round, Step: 3, LastCommitRound: lcr})),
+		recv("HasVote", consensus.StateChannel, wrapCons(&tmcons.HasVote{Height: e.h, Round: rs.Round, Type: tmproto.PrevoteType, Index: 0})),
+		recv("VoteSetMaj23 (reads the node's vote sets under the state lock)", consensus.StateChannel, wrapCons(&tmcons.VoteSetMaj23{Height: e.h, Round: rs.Round, Type: tmproto.PrevoteType, BlockID: forged})),
+		recv("ProposalPOL for another height", consensus.DataChannel, wrapCons(&tmcons.ProposalPOL{Height: e.h + 7, ProposalPolRound: 0, ProposalPol: tmbits.BitArray{Bits: 1, Elems: []uint64{0}}})),
+		recv("Vote that the state machine will refuse", consensus.VoteChannel, wrapCons(&tmcons.Vote{Vote: outsider.ToProto()})),
+		recv("VoteSetBits", consensus.VoteSetBitsChannel, wrapCons(&tmcons.VoteSetBits{Height: e.h, Round: rs.Round, Type: tmproto.PrevoteType, BlockID: forged})),
+		{"State.GetRoundState / GetRoundStateJSON (RPC)", func() { e.cs.GetRoundState(); _, _ = e.cs.GetRoundStateJSON() }},
+		{"PeerState.GetRoundState / ToJSON of the hostile peer (RPC dump_consensus_state)", func() {
+			if hostile != nil {
+				hostile.GetRoundState()
+				_, _ = hostile.ToJSON()
+			}
+		}},
+	})
+	if !e.barrier() {
+		t.Fatalf("consensus receive routine died (CONSENSUS FAILURE) while serving a well-behaved peer after hostile input")
+	}
+	e.settle(p)
+	if pn := e.routinePanic(); pn != "" {
+		return // reported by the caller with the message history
+	}
+	must(t, "consensus: RemovePeer (Switch.StopPeerGracefully)", func() { e.sw.StopPeerGracefully(p) })
+	e.awaitPeerRoutines(p)
+}
+
+// closeChecked stops the node; a stop that hangs is a wedge too.
+func (e *consEnv) closeChecked() {
+	quietly(e.t, "consensus: stopping the node (peers removed, Reactor.Stop, State.Stop)", e.close)
 }
 
 func (e *consEnv) close() {
@@ -307,6 +375,12 @@ func (e *consEnv) close() {
 		// reported by the leak check below with stacks
 	}
 	os.RemoveAll(e.dir)
+}
+
+// ownStateChecked is ownState on a bounded goroutine (it takes the state machine's read lock).
+func (e *consEnv) ownStateChecked() (s string) {
+	must(e.t, "consensus: State.GetRoundState (reading the node's own state)", func() { s = e.ownState() })
+	return
 }
 
 // ownState is a fingerprint of everything of the NODE's own consensus state that input from a peer which is not a
